@@ -870,7 +870,10 @@ static void inline make_inflate_huff_code_header(struct inflate_huff_code_small 
 static int
 header_matches_pregen(struct inflate_state *state)
 {
-#ifndef ISAL_STATIC_INFLATE_TABLE
+#if !defined(ISAL_STATIC_INFLATE_TABLE) || (IGZIP_HIST_SIZE <= 8192)
+        /* The pregen tables in static_inflate.h are generated from the default
+         * (32K window) hufftables_default; hufftables_c.c provides a different
+         * default table when IGZIP_HIST_SIZE <= 8192. */
         return 0;
 #else
         uint8_t *in, *hdr;
